@@ -46,7 +46,7 @@ func patient() time.Duration {
 	if atomic.LoadInt32(&expiries) >= 3 {
 		return 200 * time.Millisecond
 	}
-	return 30 * time.Second
+	return 3 * time.Second
 }
 
 var target = big.NewInt(1000000007)
@@ -102,16 +102,17 @@ func chainKey(c addchain.Chain) string {
 	return strings.Join(ss, ",")
 }
 
-// newAlgs: algorithm 3 (mod 4) fails, algorithm 4 (mod 5) returns a chain for n+1 (Execute then
-// reports an error but keeps the chain); the others succeed.
+// newAlgs: algorithm i fails when (i+k) mod 4 = 3 and returns a chain for n+1 when (i+k) mod 5 = 4
+// (Execute then reports an error but keeps the chain), so that over k = 1..7 the failing one is
+// first (k=3), in the middle (k=5,6,7) and last (k=2,4); the others succeed.
 func newAlgs(k int) []*gateAlg {
 	as := make([]*gateAlg, k)
 	for i := range as {
 		a := &gateAlg{id: i, gate: make(chan struct{})}
 		switch {
-		case i%4 == 3:
+		case (i+k)%4 == 3:
 			a.err = fmt.Errorf("fail%d", i)
-		case i%5 == 4:
+		case (i+k)%5 == 4:
 			a.chain = chainFor(i, new(big.Int).Add(target, big.NewInt(1)))
 		default:
 			a.chain = chainFor(i, target)
@@ -327,7 +328,11 @@ func scenario(k, limit int, strategy string) (o obs) {
 		res = append([]exec.Result{}, out...) // what the slice holds at the moment of return
 		for _, a := range as {
 			if c := atomic.LoadInt32(&a.calls); c != 1 {
-				callNotes = append(callNotes, fmt.Sprintf("FindChain of algorithm %d had been called %d time(s) when Execute returned", a.id, c))
+				if c == 0 {
+					callNotes = append(callNotes, fmt.Sprintf("algorithm %d never entered FindChain when Execute returned", a.id))
+				} else {
+					callNotes = append(callNotes, fmt.Sprintf("FindChain of algorithm %d had been called %d times when Execute returned", a.id, c))
+				}
 			}
 		}
 		rec.add("r")
@@ -379,9 +384,8 @@ func scenario(k, limit int, strategy string) (o obs) {
 		if limit < m {
 			m = limit
 		}
-		if !rec.wait(func() bool { return rec.nstart >= m }, patient()) {
-			o.problem = "nosat"
-		}
+		// bounded: when fewer algorithms start, go on and report the count reached (sat)
+		rec.wait(func() bool { return rec.nstart >= m || rec.ret }, patient())
 		if name == "saturate" {
 			time.Sleep(delta)
 		}
@@ -396,8 +400,8 @@ func scenario(k, limit int, strategy string) (o obs) {
 			}
 			open(j)
 			if name != "holdout" && rec.check(func() bool { return rec.started[j] }) {
-				if !rec.wait(func() bool { return rec.done[j] }, patient()) {
-					o.problem = "nodone"
+				if !rec.wait(func() bool { return rec.done[j] || rec.ret }, patient()) {
+					o.notes = append(o.notes, fmt.Sprintf("algorithm %d logged start but no done line after its gate was opened", j))
 				}
 			}
 		}
@@ -424,6 +428,7 @@ func scenario(k, limit int, strategy string) (o obs) {
 	snapshot()
 
 	// ---- direct observations for the oracle ----
+	openAll() // the sequential reference runs below must never block
 	o.notes = append(o.notes, callNotes...)
 	if n.Cmp(n0) != 0 {
 		o.notes = append(o.notes, "the target was modified")
@@ -533,6 +538,18 @@ func legal(k, limit int, tr []string) bool {
 	return ret
 }
 
+func describeProblem(p string) string {
+	switch p {
+	case "noreturn":
+		return "Execute did not return after all gates were opened (bounded wait expired)"
+	case "stuck-watchdog":
+		return "the controlled run did not complete within the watchdog"
+	case "stuck-panic":
+		return "the controlled run panicked: " + lastPanic
+	}
+	return "schedule could not be driven: " + p
+}
+
 func identitySlots(k int) string {
 	xs := make([]int, k)
 	for i := range xs {
@@ -562,6 +579,35 @@ func splitTrace(s string) []string {
 	return strings.Split(s, ",")
 }
 
+// guarded runs one controlled run under a watchdog. A panic of the harness goroutine or an expiry
+// becomes the case's result ("err stuck-panic" / "err stuck-watchdog"); the run's goroutines are
+// abandoned and the harness goes on with the next case. (A pending timer also keeps the Go runtime
+// from declaring "all goroutines are asleep".)
+const watchdog = 45 * time.Second
+
+var lastPanic string
+
+func guarded(f func()) (problem string) {
+	done := make(chan string, 1)
+	go func() {
+		defer func() {
+			if v := recover(); v != nil {
+				lastPanic = fmt.Sprint(v)
+				done <- "stuck-panic"
+			}
+		}()
+		f()
+		done <- ""
+	}()
+	select {
+	case p := <-done:
+		return p
+	case <-time.After(watchdog):
+		atomic.AddInt32(&expiries, 3)
+		return "stuck-watchdog"
+	}
+}
+
 func observe(c string) obs {
 	cacheMu.Lock()
 	o, ok := cache[c]
@@ -570,7 +616,11 @@ func observe(c string) obs {
 		return o
 	}
 	f := strings.Split(c, " ")
-	o = scenario(lib.Atoi(field(f[1], "k")), lib.Atoi(field(f[2], "limit")), field(f[3], "strategy"))
+	k, limit := lib.Atoi(field(f[1], "k")), lib.Atoi(field(f[2], "limit"))
+	o = obs{k: k, limit: limit, sat: -1}
+	if w := guarded(func() { o2 := scenario(k, limit, field(f[3], "strategy")); o = o2 }); w != "" {
+		o = obs{k: k, limit: limit, sat: -1, problem: w}
+	}
 	cacheMu.Lock()
 	cache[c] = o
 	cacheMu.Unlock()
@@ -621,9 +671,14 @@ func oracle(c, res string) string {
 			return "Execute is stuck"
 		}
 		if o.problem != "" {
-			return "schedule could not be driven: " + o.problem + " trace=" + o.traceList()
+			return describeProblem(o.problem) + " trace=" + o.traceList()
 		}
 		var bad []string
+		for i, sl := range o.slots {
+			if sl == "e" {
+				bad = append(bad, fmt.Sprintf("position %d holds a zero-valued result", i))
+			}
+		}
 		if o.slotList() != identitySlots(k) {
 			bad = append(bad, "slot i does not hold the result of algorithm i: slots="+o.slotList())
 		}
